@@ -44,6 +44,9 @@ func genRoundTripFile(rng *lib.Rand, idx uint64, noSources bool) (*fit.File, byt
 	ft := lib.FileTypes[fti].Type
 	arch := int(idx / uint64(len(lib.FileTypes)) % 2)
 	o := lib.FileGenOpts{FileType: ft, MaxPerSlot: 1 + rng.Intn(5), NoSources: noSources}
+	if idx%97 == 0 {
+		o.MaxPerSlot = 40 + rng.Intn(300) // long slices: one definition serving hundreds of records, files of 10-300 KB
+	}
 	return lib.GenFile(rng, o), ft, arch
 }
 
